@@ -8,6 +8,26 @@
 //! harness is therefore reached only when no explicit panic was raised.
 #![allow(static_mut_refs, dead_code)]
 
+/// A list of obligations checked INDEPENDENTLY of one another. Kani's `assert!` assumes its condition
+/// after checking it, so in a sequence of assertions a failing one masks those that follow. Here every
+/// condition is evaluated first (no assumption), then a nondeterministic choice picks which one this
+/// execution asserts: each obligation is decided on all executions, whatever happens to the others.
+#[macro_export]
+macro_rules! obligations {
+    ( $( $cond:expr => $msg:literal ),+ $(,)? ) => {{
+        let __conds = [ $( $cond ),+ ];
+        let __k: usize = kani::any();
+        let mut __i = 0usize;
+        $(
+            if __k == __i {
+                assert!(__conds[__i], $msg);
+            }
+            __i += 1;
+        )+
+        let _ = __i;
+    }};
+}
+
 pub const K_SIG_MISMATCH: u32 = 1;
 pub const K_NOT_BOOL: u32 = 2;
 pub const K_MPROTECT: u32 = 3;
@@ -89,6 +109,14 @@ pub fn event_hook(_kind: u8) {}
 /// number of installation requests that reached the core (incremented by the recorders that stand for
 /// `WhenCalled::will_execute_guard` / `will_return_boolean_guard`)
 pub static mut CORE_CALLS: usize = 0;
+
+/// T7: number of PatchGuard values constructed so far
+pub static mut GUARDS_CREATED: usize = 0;
+pub fn on_guard_new() {
+    unsafe {
+        GUARDS_CREATED += 1;
+    }
+}
 
 /// ghost "a panic is in flight" flag, bound onto std::thread::panicking with #[kani::stub]
 pub static mut PANICKING: bool = false;
